@@ -33,6 +33,7 @@ class Interp:
         self.events = []                     # notes (assumed library facts used, etc.)
         self.lib_log = set(); self.executed = set()
         self.call_hook = None
+        self.no_pre_inline = set()           # callees whose body could not be executed when a call-site precondition failed (persists over the paths of a unit)
     # ------------------------------------------------------------------ path state
     def reset_path(self, decisions=None):
         self.pc = []; self.decisions = list(decisions or []); self.dpos = 0; self.pending = []
@@ -567,10 +568,21 @@ class Interp:
                 ok = v.status == "proved"
             except (Unsupported, PyRaise): raise
             except Exception: ok = True           # the contract's own evaluation failed: leave it to apply(), which reports it
-            if not ok:
-                self.derived_used.add(f"call-site precondition of {c.target.split('.')[-1]} not established: body inlined")
+            if not ok and c.target not in self.no_pre_inline:
+                mark = f"call-site precondition of {c.target.split('.')[-1]} not established: body inlined"
+                self.derived_used.add(mark)
                 self.events.append(f"precondition-not-established: {c.target} at {getattr(self.stack[-1].func, 'qualname', '?') if self.stack else '?'}: real body inlined")
-                return self.call_body(f, args, kw)
+                depth = len(self.stack)
+                try:
+                    return self.call_body(f, args, kw)
+                except (PyRaise, ReturnExc, BreakExc, ContinueExc, RestartPath): raise
+                except Exception as ex:
+                    if type(ex).__name__ in ("PathEnd", "PreFailed"): raise
+                    # the real body is outside the engine's reach (Unsupported / engine-internal error): the question cannot be settled through the body, so the
+                    # path is re-executed with the contract applied at this call site and the unestablished precondition REPORTED as the failing obligation
+                    # (an obligation that held on the unchanged tree and fails now - e.g. M03, M23, S64, S84)
+                    self.no_pre_inline.add(c.target); del self.stack[depth:]
+                    raise RestartPath()
         return c.apply(self, f, bound)
     def instantiate(self, cls, args, kw):
         if cls.is_dataclass:
